@@ -293,7 +293,10 @@ MANIFEST = {
                   'dictionaries (C12_total); size_hint observed on the fresh iterator and after every page keeps lower <= upper and '
                   'its upper bound covers the pages still to come on ANY document (C12_size_hint_sound), and with all Count entries '
                   'right its lower bound counts down n, n-1, .., 0 (C12_size_hint_countdown); the limits are re-read from src/document.rs on every run and the model is '
-                  'tied to the implementation by differential runs on generated well-formed and damaged trees.',
+                  'tied to the implementation by differential runs on generated well-formed and damaged trees.  After save and reload (composition with C01_full): '
+                  'the file written in the table format loads to a document with the same enumeration for EVERY savable document (C12_after_save_load_table); '
+                  'in either format the depth-first order is kept for page trees meeting the hypotheses of C12_dfs (C12_after_save_load); the stream format adds one object '
+                  '(the cross-reference stream) to the iteration budget, which a cyclic tree makes visible (C12_stream_reload_budget_witness).',
     'level_note': 'Trusted: Coq kernel; translator (two constants + nine shape anchors); hand-written model of '
                   'PageTreeIter::next / size_hint tied by correspondence (observable: the yielded id list, get_pages map, '
                   'size_hint at every observable state); '
